@@ -160,6 +160,13 @@ func runC03(r *core.Run) (bool, string) {
 			return
 		}
 		ex := gl.Explore(prog, gl.CapExact, j.cn, maxSched, 200000, dec, 4)
+		// second exploration under Go's condition-variable semantics (Wait blocks until a
+		// Signal/Broadcast reaches it; Signal wakes the longest waiter): the translation must
+		// preserve which of Signal / Broadcast / Wait is called on which object
+		sprog := *prog
+		sprog.StrictCond = true
+		sex := gl.Explore(&sprog, gl.CapExact, j.cn, maxSched, 200000, dec, 4)
+		r.Count("interleavings_explored_signal_semantics", int64(sex.Schedules))
 		res.Model, res.Schedules, res.BoundHit, res.MaxThreads, res.MaxChoices = ex.Outcomes, ex.Schedules, ex.BoundHit, ex.MaxThreads, ex.MaxChoices
 		r.Count("interleavings_explored", int64(ex.Schedules))
 		r.Count("template_"+info.Tmpl, 1)
@@ -210,6 +217,37 @@ func runC03(r *core.Run) (bool, string) {
 			if len(res.GoOutcomes) > 1 {
 				// the generator's claim of schedule independence was wrong: not a finding about goose
 				r.Inconclusive("template-not-deterministic-in-go")
+			}
+		}
+		// the same two clauses under signal semantics
+		if res.Verdict == "" && !sex.BoundHit {
+			sincon := false
+			for k := range sex.Outcomes {
+				switch strings.SplitN(k, ":", 2)[0] {
+				case "budget", "unsupported", "depth", "internal", "diverge":
+					sincon = true
+				}
+			}
+			if !sincon {
+				var smissing []string
+				for gv := range res.GoOutcomes {
+					if gv != "PANIC" && sex.Outcomes["value:"+gv] == 0 {
+						smissing = append(smissing, gv)
+					}
+				}
+				sdetail := map[string]interface{}{"result": &res, "go_source": src, "model_outcomes_signal_semantics": sex.Outcomes, "witness_schedules": sex.Witness}
+				if len(smissing) > 0 {
+					res.Verdict = "go-outcome-not-in-model(signal semantics)"
+					r.Violate("c03-"+info.Tmpl+"-go-outcome-not-in-model-under-signal-semantics", fmt.Sprintf("with Wait blocking until signalled, Go produced %v which no interleaving of the emitted program yields (%v)", smissing, keysOf(sex.Outcomes)), sdetail)
+				} else if info.Det {
+					for k := range sex.Outcomes {
+						kind := strings.SplitN(k, ":", 2)[0]
+						if kind == "stuck" || kind == "deadlock" || (kind == "value" && res.GoOutcomes[strings.TrimPrefix(k, "value:")] == 0) {
+							res.Verdict = "model-" + kind + "(signal semantics)"
+							r.Violate("c03-"+info.Tmpl+"-model-"+kind+"-under-signal-semantics", fmt.Sprintf("with Wait blocking until signalled, some interleaving of the emitted program ends in %s; Go always yields %v", k, keysOf(res.GoOutcomes)), sdetail)
+						}
+					}
+				}
 			}
 		}
 		if res.Verdict == "" {
